@@ -98,6 +98,21 @@ def same_value(a, b):
     return a == b
 
 
+def _old_version(tok):
+    """'patch' / 'minor': the installed version with only its last / middle component changed"""
+    if tok not in ("patch", "minor"):
+        return tok
+    cur = evo_settings.__version__
+    parts = cur.lstrip("v").split(".")
+    try:
+        i = len(parts) - 1 if tok == "patch" else max(len(parts) - 2, 0)
+        n = int(parts[i])
+        parts[i] = str(n - 1 if n > 0 else n + 1)
+        return ("v" if cur.startswith("v") else "") + ".".join(parts)
+    except ValueError:
+        return "v0.0.1"
+
+
 class SettingsHistory(object):
     def __init__(self, init):
         self.dir = tempfile.mkdtemp(prefix="c18_", dir=os.getcwd())
@@ -163,8 +178,35 @@ class SettingsHistory(object):
         self.touched |= named
         self.check("set %s" % toks, touched=named)
 
+    def _reset_cli(self, op):
+        """the same through 'evo_config reset [-y] [params]' (package settings path pointed at this history's file)"""
+        subset = op["subset"]
+        argv = ["reset"] + (["-y"] if op.get("yes") else []) + list(subset or [])
+        before = self.path.read_bytes()
+        saved = (evo_settings.DEFAULT_PATH, evo_settings.reset.__defaults__)
+        evo_settings.DEFAULT_PATH = self.path
+        evo_settings.reset.__defaults__ = (self.path, None)
+        try:
+            out = cli.run_config(argv, default_answer="y")
+        finally:
+            evo_settings.DEFAULT_PATH, evo_settings.reset.__defaults__ = saved
+        if out.exit_code != 0:
+            if self.path.read_bytes() != before:
+                raise Mismatch("evo_config %s failed (%s) but changed the settings file" % (" ".join(argv), out.refused), observed="refused_but_changed", after="reset")
+            return
+        if not subset:
+            self.model = copy.deepcopy(DEFAULT_SETTINGS_DICT)
+            self.check("evo_config " + " ".join(argv))
+            return
+        for k in subset:
+            if k in DEFAULT_SETTINGS_DICT:
+                self.model[k] = copy.deepcopy(DEFAULT_SETTINGS_DICT[k])
+        self.check("evo_config " + " ".join(argv), touched=set(subset))
+
     def _op_reset(self, op):
         subset = op["subset"]
+        if op.get("cli"):
+            return self._reset_cli(op)
         if subset is None:
             evo_settings.reset(self.path)
             self.model = copy.deepcopy(DEFAULT_SETTINGS_DICT)
@@ -195,7 +237,7 @@ class SettingsHistory(object):
         for k in removed:
             del data[k]
         evo_settings.write_to_json_file(self.path, data)
-        self.version_path.write_text(op["old_version"])
+        self.version_path.write_text(_old_version(op["old_version"]))
         saved = (evo_settings.USER_ASSETS_VERSION_PATH, evo_settings.DEFAULT_PATH, evo_settings.USER_ASSETS_PATH)
         evo_settings.USER_ASSETS_VERSION_PATH, evo_settings.DEFAULT_PATH, evo_settings.USER_ASSETS_PATH = self.version_path, self.path, Path(self.dir)
         try:
@@ -276,10 +318,11 @@ st_other = st.dictionaries(st.sampled_from(KEYS), st.one_of(st.booleans(), st.in
                                                             st.lists(st.one_of(st.integers(0, 20), st.sampled_from(["rmse", "max"])), max_size=3)), max_size=4)
 OPS = {
     "set": st.fixed_dictionaries({"op": st.just("set"), "tokens": st.lists(st_token, min_size=0, max_size=8)}),
-    "reset": st.fixed_dictionaries({"op": st.just("reset"), "subset": st.one_of(st.none(), st.lists(st.one_of(st.sampled_from(KEYS), st.just("bogus")), max_size=5))}),
+    "reset": st.fixed_dictionaries({"op": st.just("reset"), "subset": st.one_of(st.none(), st.lists(st.one_of(st.sampled_from(KEYS), st.just("bogus")), max_size=5)),
+                                    "cli": st.booleans(), "yes": st.booleans()}),
     "merge": st.fixed_dictionaries({"op": st.just("merge"), "other": st_other, "soft": st.booleans()}),
     "upgrade": st.fixed_dictionaries({"op": st.just("upgrade"), "removed": st.lists(st.sampled_from(KEYS), max_size=5, unique=True),
-                                      "old_version": st.sampled_from(["v1.0.0", "v1.30.0", "", "1.31.0"])}),
+                                      "old_version": st.sampled_from(["v1.0.0", "v1.30.0", "", "1.31.0", "patch", "minor", "patch"])}),
     "container": st.fixed_dictionaries({"op": st.just("container"), "unknown": st.sampled_from(["foo", "plot_foo", "__x", "rmse"]), "other": st_other}),
 }
 
